@@ -30,7 +30,7 @@ def scenarios(engine, rng, n):
         kind = rng.choice(["dlq-threshold", "dlq-threshold-proc", "dlq-write", "force", "nonconverging",
                            "transient-once", "transient-once-dest", "transient-open", "transient-always",
                            "stop-running", "stop-during-backoff", "stopall", "fail-during-stop",
-                           "transient-then-stop", "dlq-disabled", "transient-spaced"])
+                           "transient-then-stop", "dlq-disabled", "transient-spaced", "fail-late-bookkeeping"])
         mr = rng.choice([0, 1, 2])
         nrec = rng.randint(3, 6)
         tags = ["s1#%d" % k for k in range(1, nrec + 1)]
@@ -121,6 +121,17 @@ def scenarios(engine, rng, n):
                             steps=[{"do": "WaitOpens", "src": "s1", "n": m + 3, "ms": 15000}, {"do": "Settle"}],
                             feats=["expect-recover-spaced"], max_retries=m, retries_window_ms=150,
                             min_delay_ms=10, max_delay_ms=40))
+        elif kind == "fail-late-bookkeeping":
+            # the failing node's goroutine is held between "this node is done" and the engine's bookkeeping of its
+            # error while every other node winds down (closed streams): the failure is still a failure - recovered,
+            # not reported as a stop nobody asked for (scheduling point lifecycle.node-done:<node>)
+            src.update(read_err_at=rng.randint(1, nrec - 1), read_err="verif: source read failed", fault_runs=1,
+                       read_err_delay_ms=150)
+            out.append(base(engine, kind, i, [src], None,
+                            steps=[{"do": "OnHook", "tag": "lifecycle.node-done:s1", "n": 1,
+                                    "steps": [{"do": "Sleep", "ms": 300}]},
+                                   {"do": "WaitOpens", "src": "s1", "n": 2, "ms": 8000}, {"do": "Settle"}],
+                            feats=["expect-recover"], max_retries=rng.choice([1, 2])))
         elif kind == "dlq-disabled":
             # window 1, threshold 0: nothing tolerated, the rejecting component's own (plain) error stops the run
             t = rng.choice(tags)
@@ -137,7 +148,8 @@ def nontrivial(sc, tr):
         return None
     kind = [f for f in sc["features"] if f in ("dlq-threshold", "dlq-threshold-proc", "dlq-write", "force", "nonconverging",
             "transient-once", "transient-once-dest", "transient-open", "transient-always", "stop-running",
-            "stop-during-backoff", "stopall", "fail-during-stop", "transient-then-stop", "dlq-disabled", "transient-spaced")]
+            "stop-during-backoff", "stopall", "fail-during-stop", "transient-then-stop", "dlq-disabled", "transient-spaced",
+            "fail-late-bookkeeping")]
     return (sc["engine"], tuple(kind), sc.get("max_retries"), statuses, opens)
 
 
@@ -148,6 +160,7 @@ def run(tier, seed):
     try:
         from checks import lifecycle_model
         lifecycle_model.run_design(chk, quick)
+        lifecycle_model.run_design_late_record(chk)
     except ImportError:
         pass
     n = 90 if quick else 2500
